@@ -43,14 +43,14 @@ Section Jd.
   Definition choose_cov_init (p : params F) (parent1 parent2 : id) : F :=
     match ie_init parent1 parent2 with Some v => v | None => default_cov_init p parent1 parent2 end.
 
-  (* create_joint_distribution(model, rvs) with rvs given: IOV etas are refused, one eta is refused,
+  (* create_joint_distribution(model, rvs) with rvs given: IOV etas are refused, fewer than two etas are refused,
      all_rvs.join(rvs, name_template='IIV_{}_IIV_{}', param_names=paramnames) and one new parameter per
      entry of cov_to_params (parents = the variance symbols M[row,row], M[col,col]) *)
   Definition create_joint_distribution (inds pn : list id) (p : params F) (r : scoll)
     : res (scoll * params F) :=
     if existsb (fun x => match level sym r x with Some l => Pos.eqb l L_IOV | None => false end) inds
     then Err ValueError
-    else if length inds =? 1 then Err ValueError
+    else if length inds <? 2 then Err ValueError        (* len(rvs) < 2, since fix 73b8b8c (was == 1) *)
     else match sjoin inds None (Some pn) r with
          | Err e => Err e
          | Ok (r', ps) =>
